@@ -397,6 +397,15 @@ class World:
         self.dst_id = ByteFieldGenerator.from_int(c["dst_idw"], 2)
         self.rc_dst_at_src = self._remote_cfg(self.dst_id, c["rc_at_src"])
         self.rc_src_at_dst = self._remote_cfg(self.src_id, c["rc_at_dst"])
+        # a third entity the sender also knows, configured as differently as possible: a request towards it while a transaction to the
+        # receiver is running is refused and must not leak any of these settings into the running transaction
+        self.third_id = ByteFieldGenerator.from_int(c["dst_idw"], 3)
+        self.rc_third_at_src = self._remote_cfg(self.third_id, {
+            "max_file_segment_len": 3, "max_packet_len": max(30, c["maxpkt"] // 2), "closure_requested": not c["closure"],
+            "crc_on_transmission": not c["crc"], "default_transmission_mode": "unack" if c["mode"] == "ack" else "ack",
+            "crc_type": "modular" if c["cks"] != "modular" else "crc32", "positive_ack_timer_interval_seconds": c["ack_ivl"] * 3 + 0.007,
+            "positive_ack_timer_expiration_limit": c["ack_limit"] + 3, "check_limit": c["check_limit"] + 3, "immediate_nak_mode": not c["imm_nak"],
+            "nak_timer_interval_seconds": c["nak_ivl"] * 3 + 0.007, "nak_timer_expiration_limit": c["nak_limit"] + 3})
         ind = c["ind"]
 
         def indcfg():
@@ -419,7 +428,7 @@ class World:
         src = SourceHandler(
             LocalEntityCfg(self.src_id, indcfg(), sfh),
             suser,
-            RemoteEntityCfgTable([self.rc_dst_at_src]),
+            RemoteEntityCfgTable([self.rc_dst_at_src, self.rc_third_at_src]),
             self.src_ctp,
             self.seq_provider,
         )
@@ -452,6 +461,10 @@ class World:
 
     def put(self) -> bool:
         return self.S.put(self.put_request())
+
+    def put_to_third(self) -> bool:
+        """A valid request towards the third entity (see _build_handlers); refused (False) while the sender is busy."""
+        return self.S.put(PutRequest(self.third_id, self.src_path, self.dst_req_path, None, None))
 
     def both_idle(self) -> bool:
         return self.S.h.state == CfdpState.IDLE and self.D.h.state == CfdpState.IDLE
